@@ -13,6 +13,7 @@ def run(F, G, tier, seed):
     effects.run_dupname(chk, F)
     effects.run_fieldgate(chk, F)
     effects.run_conststicky(chk, F)
+    effects.run_dynparam(chk, F)
     rid = "R-GATE[C12]"
     chk.rule(rid, "visitInstance: a non-const reference template parameter needs a unique-reference argument")
     effects.run_c13_instance(chk, F, rid)
